@@ -326,6 +326,25 @@ Theorem C13_copy_covers_range :
 Proof. exact copy_covers_range. Qed.
 Print Assumptions C13_copy_covers_range.
 
+(* ---- descriptors (round 5) ------------------------------------------ *)
+
+(* "Any number" of stored reports includes more reports than the process may
+   have open files: with room for ONE reader (free >= 1) the merge under the
+   descriptor bound is the unbounded merge, for every number of objects. *)
+Theorem C13_merge_any_number_under_fd_limit :
+  forall (R : Type) (enc : R -> bytes) (dec : bytes -> option R) free objs,
+  (1 <= free)%nat -> merge_fd R enc dec free objs = merge R enc dec objs.
+Proof. exact merge_fd_any_number. Qed.
+Print Assumptions C13_merge_any_number_under_fd_limit.
+
+(* the readers handleMerge opens: never more than one at a time, none left
+   when it returns (also when an object does not decode) *)
+Theorem C13_merge_one_reader_at_a_time :
+  forall (R : Type) (dec : bytes -> option R) objs,
+  open_peak (merge_events R dec objs) 0 0 = ((if is_nil objs then 0 else 1)%nat, 0%nat).
+Proof. exact merge_one_reader_at_a_time. Qed.
+Print Assumptions C13_merge_one_reader_at_a_time.
+
 (* ---- non-vacuity --------------------------------------------------- *)
 
 (* the identity iteration orders with insertion sort satisfy iter_ok *)
